@@ -12,6 +12,7 @@ pub mod c09;
 pub mod c10;
 pub mod c11;
 pub mod c12;
+pub mod c13;
 
 use crate::ctx::Ctx;
 use crate::report::Report;
@@ -31,6 +32,7 @@ pub fn dispatch(ctx: &Ctx, rep: &mut Report) -> bool {
         "C10" => c10::run(ctx, rep),
         "C11" => c11::run(ctx, rep),
         "C12" => c12::run(ctx, rep),
+        "C13" => c13::run(ctx, rep),
         _ => return false,
     }
     true
